@@ -451,7 +451,9 @@ def oracle_member(c, v):
                 return False
         else:
             return False
-        if x != x or lo != lo or hi != hi:
+        if lo != lo or hi != hi:
+            return None                               # a NaN bound is not a numeric bound (cannot be written in a chain text)
+        if x != x:
             return False                              # nan is in no range
         if kind == "int" and abs(x) > 2 ** 53:
             exact = bool(lo <= x <= hi)                   # Python compares int with float exactly
@@ -526,28 +528,6 @@ def oracle_chain(chain, v, member_cache=None):
 # known-finding class predicates (input based, narrow).  Signature: (chain_kinds_and_specs, python value) -> bool
 # ------------------------------------------------------------------------------------------------
 
-def _denotes_nan(v):
-    if isinstance(v, float):
-        return v != v
-    if isinstance(v, str):
-        try:
-            return math.isnan(float(v))
-        except ValueError:
-            return False
-    return False
-
-
-def range_nan(chain, v):
-    """F19: a RANGE member and a value that denotes NaN (float nan or a numeral spelling nan),
-    or a RANGE member whose own bound is NaN."""
-    for c in chain:
-        if c[0] == "RANGE":
-            lo, hi = dec_val(c[1]), dec_val(c[2])
-            if _denotes_nan(v) or lo != lo or hi != hi:
-                return True
-    return False
-
-
 def range_int_overflow(chain, v):
     """F36: a RANGE member and an int (not bool) too large for float()."""
     if not any(c[0] == "RANGE" for c in chain):
@@ -561,4 +541,17 @@ def range_int_overflow(chain, v):
         return True
 
 
-CLASS_PREDICATES = {"range_nan": range_nan, "range_int_overflow": range_int_overflow}
+def spec_exempt(chain, v):
+    """Inputs outside the hypotheses of the Lean RANGE theorem (`RangeGuard`): a NaN bound (not writable in a chain text),
+    or an int value beyond 2^53 (the code compares after binary64 rounding).  The Lean spec is not consulted there."""
+    for c in chain:
+        if c[0] == "RANGE":
+            lo, hi = dec_val(c[1]), dec_val(c[2])
+            if lo != lo or hi != hi:
+                return True
+            if isinstance(v, int) and not isinstance(v, bool) and abs(v) > 2 ** 53:
+                return True
+    return False
+
+
+CLASS_PREDICATES = {"range_int_overflow": range_int_overflow}
